@@ -40,6 +40,7 @@ type sizeSess struct {
 var (
 	sizeSessions = map[string]*sizeSess{}
 	sizeCounter  uint64
+	sizeSent     = map[string]int{} // subscriber -> containers carried by its accepted requests
 )
 
 func init() {
@@ -73,7 +74,7 @@ func sizeReq(s *sizeSess, nusage, ncont, upflen int) *models.ChfConvergedChargin
 			c.UplinkVolume = int32(k % 65521)
 			c.DownlinkVolume = int32(k % 251)
 			c.ServiceSpecificUnits = int32(k % 16777213)
-			c.LocalSequenceNumber = int32(sizeCounter % 100000)
+			c.LocalSequenceNumber = int32(sizeCounter)
 			u.UsedUnitContainer = append(u.UsedUnitContainer, c)
 		}
 		r.MultipleUnitUsage = append(r.MultipleUnitUsage, u)
@@ -90,6 +91,7 @@ func runCdrSize(line string, t []string) string {
 	case "reset":
 		sizeSessions = map[string]*sizeSess{}
 		sizeCounter = 0
+		sizeSent = map[string]int{}
 		return runChf(line, t)
 	case "end":
 		for _, s := range sizeSessions {
@@ -148,9 +150,23 @@ func runCdrSize(line string, t []string) string {
 			file = "-"
 		}
 	}
+	if w.Code/100 == 2 {
+		sizeSent[s.supi] += nusage * ncont
+	}
 	var recs []string
+	recorded, distinct := 0, map[int64]bool{}
 	if ue, ok := chf_context.GetSelf().ChfUeFindBySupi(s.supi); ok {
 		for _, r := range ue.Records {
+			if r != nil && r.ChargingFunctionRecord != nil {
+				for _, mu := range r.ChargingFunctionRecord.ListOfMultipleUnitUsage {
+					for _, c := range mu.UsedUnitContainers {
+						recorded++
+						if c.LocalSequenceNumber != nil {
+							distinct[c.LocalSequenceNumber.Value] = true
+						}
+					}
+				}
+			}
 			rb, err := asn.BerMarshalWithParams(&r, "explicit,choice")
 			if err != nil {
 				recs = append(recs, "err")
@@ -163,7 +179,7 @@ func runCdrSize(line string, t []string) string {
 	if len(recs) > 0 {
 		rs = strings.Join(recs, ";")
 	}
-	return fmt.Sprintf("st=%d pre=%d chg=%d file=%s recs=%s", w.Code, pre, chg, file, rs)
+	return fmt.Sprintf("st=%d pre=%d chg=%d cont=%d:%d:%d file=%s recs=%s", w.Code, pre, chg, recorded, len(distinct), sizeSent[s.supi], file, rs)
 }
 
 // size of the record the session currently writes to (-1: none), as the CHF marshals it
@@ -262,7 +278,7 @@ func genCdrSize(o genOpts, w *bufio.Writer) {
 		})
 	}
 	// 2b. updates sized at run time so that record + usage is exactly 65535 + delta, on a fresh and on a grown record
-	for _, delta := range []int{-8, -3, -2, -1, 0, 1, 2} {
+	for _, delta := range []int{-8, -3, -2, -1, 0, 1, 2, 5, 8, 40, 120, 200, 340} {
 		scenario(func(mk func(string, string, int, int, int) string) {
 			hs := mk("imsi-208930000000007", "smf", 0, 0, 0)
 			fmt.Fprintf(w, "cdrsize fit %s %d\n", hs, delta)
